@@ -66,7 +66,9 @@ def run(ctx):
     binary = ctx.build("pv-msgs")
     ctx.assume("version data is projected to (magic, rest): n2n rest = diffusion mode + peer-sharing flag, n2c rest = "
                "query flag; the data a responder accepts with is identified by equality with an entry of C or S")
-    ctx.assume("version numbers and magics are kept below 2^31 (TLC integers)")
+    ctx.assume("version numbers are kept below 2^31 (TLC integers); network magics are logged as abstract ids 1..10 standing for "
+               "764824073, 764824073+2^32, 1097911063, 1097911063+2^63, 1, 1+2^32, 2, 4, 2^32, 2^64-1 (ids 1/2 of the TLC-enumerated "
+               "pairs differ only above bit 31)")
 
     # 1. property vs design model, exhaustively
     ctx.tlc_mc("proto", "MCHandshake", "MCHandshake.cfg", workers=4, timeout=1800,
